@@ -354,13 +354,15 @@ def build_request(ex, meta):
         r["derive_keep"] = [x for x in o["derive"].split(",") if x and x != "Structural"]
     if "acc_type" in o:
         r["acc_type"] = o["acc_type"].replace("~", " ")
+    if "float_casts" in o:
+        r["float_casts"] = o["float_casts"]
     if "copied_collect_as" in o:
         r["copied_collect_as"] = o["copied_collect_as"]
     if "extend_with" in o:
         r["extend_with"] = o["extend_with"].split(",")
     if "await_yields" in o:
         r["await_yields"] = o["await_yields"]
-    for k in ("index_recv", "drop_calls", "opaque_macros", "mut_params", "str_params", "string_exprs", "into_vec", "iter_on", "iter_vec", "keyed_mut_iter", "deref_params", "subst", "collect_as_set"):
+    for k in ("index_recv", "drop_calls", "opaque_macros", "mut_params", "str_params", "string_exprs", "seq_args", "into_vec", "iter_on", "iter_vec", "keyed_mut_iter", "deref_params", "subst", "collect_as_set"):
         if k in o:
             r[k] = o[k].split(",")
     if "param_types" in o:
@@ -616,7 +618,8 @@ def assemble(unit, workdir, vacuity_twins=False):
         if ex["opts"].get("rename"):
             sig = re.sub(r"\bfn\s+\w+", "fn " + ex["opts"]["rename"], sig, count=1)
         if item["ret"]:
-            sig = sig + f" -> ({retname}: {item['ret']})"
+            ret = item["ret"]
+            sig = sig + f" -> ({retname}: {ret})"
         if shape.get("where") and not ex["opts"].get("slice_sig"):
             sig = sig + "\n    " + shape["where"]
         contract = "\n".join(ex["contract"]).rstrip()
@@ -644,6 +647,8 @@ def assemble(unit, workdir, vacuity_twins=False):
             emit("\n".join(("#[derive(%s)]\n" % der if (l.startswith("pub enum") or l.startswith("pub struct")) else "") + l for l in item["hoisted"].split("\n")))
         if hdr:
             emit(hdr + " {")
+            if item.get("impl_assoc"):
+                emit(item["impl_assoc"])
         for a in ex["opts"].get("attrs", "").split(";"):
             if a:
                 emit(f"#[{a}]")
